@@ -154,11 +154,9 @@ func main() {
 			x.AllAnnotations = append([]string{}, k.AllAnnotations()...)
 		}
 		if kt := ins.KernelType(); kt != nil {
-			for _, a := range k.AllAnnotations() {
-				if kt.HasAnnotation(a) {
-					x.Annotations = append(x.Annotations, a)
-				}
-			}
+			// the RAW declared list (declaration order), not HasAnnotation: the dump must not share the
+			// generator's lookup code
+			x.Annotations = append([]string{}, kt.Annotations()...)
 		}
 		switch t := ins.(type) {
 		case *pure.TypeInstancePrimitive:
